@@ -529,6 +529,23 @@ def main():
         add("F.key-has-begin-marker:priv-pem-%d" % t, pem(PRIV, X_PRIV_PREFIX + marked))
         add("F.key-has-begin-marker:pub-der-%d" % t, X_PUB_PREFIX + marked)
         add("F.key-has-begin-marker:pub-pem-%d" % t, pem(PUB, X_PUB_PREFIX + marked))
+    # ---- G. the same keys in BER with INDEFINITE lengths (30 80 ... 00 00): not DER, must be refused
+    def indef(der, inner):
+        """re-encode the outer SEQUENCE (and optionally the AlgorithmIdentifier SEQUENCE) of a key with indefinite length"""
+        assert der[0] == 0x30 and der[1] < 0x80
+        body = der[2:]
+        if inner:
+            # private: 02 01 00 | 30 05 06 03 .. ; public: 30 05 06 03 ..
+            i = 3 if body[0] == 0x02 else 0
+            assert body[i] == 0x30 and body[i + 1] == 5
+            body = body[:i] + b"\x30\x80" + body[i + 2:i + 7] + b"\x00\x00" + body[i + 7:]
+            return bytes([0x30, len(body)]) + body
+        return b"\x30\x80" + body + b"\x00\x00"
+    for nm, label, der in (("x-priv", PRIV, X_PRIV_PREFIX + xs), ("x-pub", PUB, X_PUB_PREFIX + xp)):
+        for inner in (False, True):
+            b = indef(der, inner)
+            add("G.ber-indefinite:%s-%s-der" % (nm, "alg" if inner else "outer"), b)
+            add("G.ber-indefinite:%s-%s-pem" % (nm, "alg" if inner else "outer"), pem(label, b))
     add("F.empty", b"")
 
     with open(os.path.join(HERE, "corpus.txt"), "w") as f, \
